@@ -35,17 +35,21 @@ pub(crate) fn optimize(
     let mut plans = Vec::with_capacity(36);
     let mut new_plan = Vec::with_capacity(36);
 
-    if enabled_modes.contains(mode) {
+    let first_iteration = if enabled_modes.contains(mode) {
         plans.push(start_plan);
+        0usize
     } else {
+        // The plans created by a mode switch have already processed the
+        // first character, so they continue with the second iteration.
         start_plan.add_switches(&mut plans, data.len(), true, enabled_modes);
-    }
+        1usize
+    };
 
-    for iteration in 0usize.. {
+    for iteration in first_iteration.. {
         let mut at_end = false;
         let use_as_start = iteration == 0;
 
-        let rest_chars = data.len() - iteration;
+        let rest_chars = data.len().saturating_sub(iteration);
         for mut plan in plans.drain(0..) {
             let plan_copy_before_step = plan.clone();
             let result = if let Some(result) = plan.step() {
